@@ -76,6 +76,8 @@ TEMPLATES = {
     "cond_expr": "{{ f() if t else g(1) }}{{ (g(2) if f() else g(3)) }}",
     "namespace": "{% set ns = namespace(v=f()) %}{% for x in seq %}{% set ns.v = ns.v + x %}{% endfor %}{{ ns.v }}",
     "getattr_chain": "{{ o.b.b.a }}{{ o.nope }}{{ o['nope'] }}|{{ o.b['k'] }}",
+    "call_probe": "{{ pf() }}{{ pf(1) }}{% if t %}{{ pf(g(1)) }}{% endif %}",
+    "filter_reverse": "{{ seq|reverse|list }}{{ gen|reverse|first }}{{ seq|reverse|join }}",
     "loop_cycle": "{% for x in seq %}{{ loop.cycle(f(), 'b') }}{{ loop.changed(g(x)) }}{% endfor %}",
 }
 HELPERS = {"inc", "incg", "lib", "base"}
@@ -102,6 +104,7 @@ def mkdata(plan, async_=False):
         "f": e5.Fn(P, "f", 1),
         "g": e5.Fn(P, "g", lambda x: x),
         "parent": e5.Fn(P, "parent", "base"),
+        "pf": e5.PFn(P, "pf", 1),
         "o": e5.Obj(P, "o", attrs={"a": 2, "b": ob}, items={"k": 7}),
         "s": e5.Str(P, "s", "s<t"),
         "h": e5.Html(P, "h", "<b>"),
